@@ -116,6 +116,44 @@ def run(ck, w):
                 "the tail records how many hunks a complete band has 'to enable validation that none are missing', but nothing "
                 "reachable from validate compares it with the hunks present (readers: %s): a deleted hunk goes unnoticed" % (detail or "none"))
 
+    o = ck.ob("C09.2b", "the hunk-count check looks at ALL hunks present (their whole sequence or their number), not at one end of the list")
+    vbb = w.body("validate::validate_bands")
+    ha_thru = [r"Iterator>?::(next|copied|cloned|map|eq|count)$", r"IntoIterator>?::into_iter$", r"<impl \[T\]>::(iter|len)$", r"Vec::<T, A>::len$",
+               r"Deref>?::deref$", r"Try>?::branch$", r"Option::<T>::(map_or|map|unwrap_or|unwrap_or_default)$", r"From<.*>>?::from$"]
+    narrow = re.compile(r"<impl \[T\]>::(last|first|get|split_last|split_first)$|Iterator::(last|max|min|nth|max_by_key|min_by_key)$|Vec::<T, A>::pop$")
+    sites = []
+    for e in vbb.events:
+        if e.bb in vbb.live and re.search(r"Iterator::(eq|ne)$|PartialEq::(eq|ne)$", e.callee or "") and len(e.args) == 2:
+            sites.append([e.args[0], e.args[1], e.site()])
+    for bb, j, st in vbb.all_assigns():
+        rv = st["rv"]
+        if rv["rk"] == "binop" and rv["op"] in ("Eq", "Ne", "Lt", "Le", "Gt", "Ge") and len(rv["ops"]) == 2:
+            sites.append([rv["ops"][0], rv["ops"][1], "%s:%s" % (vbb.file, st.get("line"))])
+    n_cmp = 0
+    bad_cmp = []
+    for a, b_, site in sites:
+        oa = flow.origins_x(lib, vbb, a, through_all=ha_thru) if a.get("k") != "const" else set()
+        ob = flow.origins_x(lib, vbb, b_, through_all=ha_thru) if b_.get("k") != "const" else set()
+
+        def has_count(oo):
+            return any((x[0] == "call" and "index_hunk_count" in x[3]) or (x[0] in ("param", "upvar") and "index_hunk_count" in x[2]) for x in oo)
+
+        def has_hunks(oo):
+            return "index::IndexRead::hunks_available" in flow.origin_calls(oo)
+        for cnt, hk in ((oa, ob), (ob, oa)):
+            if has_count(cnt) and has_hunks(hk):
+                n_cmp += 1
+                nar = sorted(c for c in flow.origin_calls(hk) | {x[1] for x in hk if x[0] == "via"} if narrow.search(c))
+                if nar:
+                    bad_cmp.append((site, nar))
+    if bad_cmp:
+        ck.fail(o, vbb.name, "hunk count compared with one end of the hunk list",
+                "the recorded count is compared with a value taken from %s of the listing: a hunk missing from the middle goes unnoticed" % bad_cmp[0][1], bad_cmp[0][0])
+    elif n_cmp == 0:
+        ck.fail(o, vbb.name, "no comparison of the recorded count with the hunks present", "validate_bands does not compare index_hunk_count with hunks_available()")
+    else:
+        ck.ok(o, "%d comparison(s)" % n_cmp, instances=n_cmp)
+
     # ---- 3. coverage table -----------------------------------------------------------------------------
     vb = w.body("validate::validate_bands")
     o = ck.ob("C09.3a", "band heads: a band that cannot be opened is reported by validate_bands")
@@ -148,6 +186,29 @@ def run(ck, w):
             ck.fail(o, gu.name, "hash comparison not on the recomputed hash", "compares %s" % flow.origin_summary(a))
     else:
         ck.fail(o, gu.name, "hash check missing", "Ok is reachable without the hash comparison succeeding")
+    o = ck.ob("C09.3k", "blocks (full mode): the length a block is credited with is that of its DECOMPRESSED content (what addresses index into), "
+                        "taken from the result of get_async_uncached")
+    problems = []
+    ok_sites = [(bb, s_) for bb, j, s_ in rules.agg_sites(gu, "std::result::Result", "Ok") if s_["pl"]["l"] == 0]
+    for bb, s_ in ok_sites:
+        ro = flow.origins_x(lib, gu, s_["rv"]["ops"][0], through_all=[r"::len$", r"Bytes::len$", r"From<.*>>?::from$", r"Into<.*>>?::into$"])
+        rc = flow.origin_calls(ro)
+        if not any(c.endswith("Decompressor::decompress") for c in rc):
+            problems.append("get_async_uncached returns something not derived from the decompressed content (%s)" % sorted(c.split("::")[-1] for c in rc))
+    lens_ok = False
+    for fb in lib.family("blockdir::BlockDir::validate"):
+        for bb, j, s_ in fb.all_assigns():
+            if s_["rv"]["rk"] == "agg" and s_["rv"].get("ak") == "tuple" and len(s_["rv"]["ops"]) == 2:
+                lo = flow.origins_x(lib, fb, s_["rv"]["ops"][1], through_all=[r"::len$", r"Bytes::len$"])
+                if any(c.startswith("blockdir::get_async_uncached") for c in flow.origin_calls(lo)):
+                    lens_ok = True
+    if not lens_ok:
+        problems.append("BlockDir::validate does not record (hash, length) from the result of get_async_uncached")
+    if problems:
+        for m_ in problems:
+            ck.fail(o, gu.name, m_.split(" (")[0], m_)
+    else:
+        ck.ok(o)
     bv = w.body("blockdir::BlockDir::validate")
     o = ck.ob("C09.3d", "blocks (full mode): every present block is read through get_async_uncached and a failure is reported")
     found = False
